@@ -312,6 +312,29 @@ def gen_big_merge(rng, name):
     return {"name": name, "regime": "big_hosts", "files": [older, big, newer], "queries": ["sort:id limit:5", "sport:81 sort:id"]}
 
 
+def gen_turns_merge(rng, name, nturns, big_every=0):
+    """A chatty stream (segmentation longer than the 4096-byte blocks AddIndex copies it in, flush threshold 4086) that is
+    copied by a merge and FOLLOWED by other copied streams: later in the same file and in older files."""
+    hosts = [c01.rand_host(rng, False) for _ in range(3)]
+    src = c01.Src(rng, 2)
+    tb = c01.time_base(rng)
+    opts = {"maxpk": 6, "p_flip": 0.5}
+    sid = iter(range(1, 100))
+
+    def small(t):
+        return c01.gen_stream(rng, next(sid), hosts, src, t, opts)
+    chatty = c01.gen_turns_stream(rng, next(sid), hosts, src, tb, nturns, big_every)
+    older = [small(tb - 86400 * 10 ** 9 + i * 10 ** 9) for i in range(3)]
+    mid = [small(tb + 5 * 10 ** 9), chatty, small(tb + 7 * 10 ** 9), small(tb + 8 * 10 ** 9)]
+    newer = [small(tb + 3600 * 10 ** 9), c01.gen_turns_stream(rng, next(sid), hosts, src, tb + 3601 * 10 ** 9, max(10, nturns // 2), 0),
+             small(tb + 3700 * 10 ** 9)]
+    files = [older, mid, newer]
+    for f in files:
+        seen = set()
+        f[:] = [s for s in f if not (c01.first_source(s) in seen or seen.add(c01.first_source(s)))]
+    return {"name": name, "regime": "many_turns", "files": files, "queries": ["sort:id", "cdata:\".\" sort:id", "sbytes:1: sort:-id"]}
+
+
 REGIMES = ["v4", "mixed", "sparse", "disjoint_hosts", "captures", "long"]
 
 
@@ -448,6 +471,9 @@ def main(tier, seed, replay=None):
             reg = REGIMES[i % len(REGIMES)]
             cases.append(gen_case(rng, "g%d_%s" % (i, reg), reg))
         cases.append(gen_big_merge(rng, "big_merge_v6"))
+        turns = [4400, 8200] if tier == "quick" else c01.TURNS
+        for j, nt in enumerate(turns):
+            cases.append(gen_turns_merge(rng, "turns%d_%d" % (j, nt), nt, big_every=(7 if j % 2 else 0)))
     bad = [(c["name"], wf_case(c)) for c in cases if wf_case(c)]
     if bad and not replay:
         raise RuntimeError("generator produced inputs outside wf_input: %r" % bad[:3])
